@@ -1,4 +1,4 @@
-// Package dns is a minimal in-process DNS responder (A records only) and the switch that points the Go resolver of
+// Package dns is a minimal in-process DNS responder (A and SRV records) and the switch that points the Go resolver of
 // this process at it, so that host names in a configuration resolve without any network: to one address, to several,
 // or not at all.
 package dns
@@ -15,9 +15,16 @@ import (
 type Server struct {
 	mu      sync.Mutex
 	records map[string][]net.IP // lower-case FQDN without the trailing dot
+	srv     map[string][]SRV
 	conn    *net.UDPConn
 	Addr    string
 	Queries int
+}
+
+// SRV is one service record: a target host (resolved through its own A record) and a port.
+type SRV struct {
+	Target string
+	Port   int
 }
 
 var (
@@ -34,7 +41,7 @@ func Global() (*Server, error) {
 			gerr = err
 			return
 		}
-		s := &Server{records: map[string][]net.IP{}, conn: c, Addr: c.LocalAddr().String()}
+		s := &Server{records: map[string][]net.IP{}, srv: map[string][]SRV{}, conn: c, Addr: c.LocalAddr().String()}
 		go s.serve()
 		net.DefaultResolver = &net.Resolver{PreferGo: true, Dial: func(ctx context.Context, network, address string) (net.Conn, error) {
 			var d net.Dialer
@@ -54,6 +61,13 @@ func (s *Server) Set(name string, ips ...string) {
 		l = append(l, net.ParseIP(ip).To4())
 	}
 	s.records[strings.ToLower(strings.TrimSuffix(name, "."))] = l
+}
+
+// SetSRV publishes service records under a name such as _kerberos._tcp.example.com (all with priority 0, weight 1).
+func (s *Server) SetSRV(name string, recs ...SRV) {
+	s.mu.Lock()
+	defer s.mu.Unlock()
+	s.srv[strings.ToLower(strings.TrimSuffix(name, "."))] = recs
 }
 
 func (s *Server) serve() {
@@ -100,7 +114,9 @@ func (s *Server) answer(q []byte) []byte {
 	s.mu.Lock()
 	s.Queries++
 	ips, known := s.records[name]
+	srvs, knownSRV := s.srv[name]
 	s.mu.Unlock()
+	known = known || knownSRV
 	rep := append([]byte{}, q[:qend]...)
 	rep[2], rep[3] = 0x85, 0x80 // response, authoritative, recursion desired + available, NOERROR
 	binary.BigEndian.PutUint16(rep[6:], 0)
@@ -108,6 +124,22 @@ func (s *Server) answer(q []byte) []byte {
 	binary.BigEndian.PutUint16(rep[10:], 0)
 	if !known {
 		rep[3] = 0x83 // NXDOMAIN
+		return rep
+	}
+	if qtype == 33 {
+		binary.BigEndian.PutUint16(rep[6:], uint16(len(srvs)))
+		for _, r := range srvs {
+			var target []byte
+			for _, l := range strings.Split(strings.TrimSuffix(r.Target, "."), ".") {
+				target = append(append(target, byte(len(l))), l...)
+			}
+			target = append(target, 0)
+			rep = append(rep, 0xc0, 0x0c, 0, 33, 0, 1, 0, 0, 0, 0)
+			rep = binary.BigEndian.AppendUint16(rep, uint16(6+len(target)))
+			rep = append(rep, 0, 0, 0, 1)
+			rep = binary.BigEndian.AppendUint16(rep, uint16(r.Port))
+			rep = append(rep, target...)
+		}
 		return rep
 	}
 	if qtype != 1 {
